@@ -110,7 +110,7 @@ def _c15_trace(inst):
         ev.append(dict(ev="Dyk", site="direct", p=p, calls=len(log), sweeps=sweeps, maxiter=maxit, below=below, whole=(idx == len(log)), order_ok=order_ok,
                        in_ok=in_ok, out_is_last=bool(np.array_equal(res, x)) if sweeps > 0 else bool(np.array_equal(res, x0)), outxid=rep + 1, inxid=0,
                        feas=feas, boxpos=[], tolok=True, refok=refok, idemok=idemok, lastboxok=lastboxok, start=kind))
-    cfg = dict(maxfun=1, det=False, reg=False, hasproj=True, onesample=True, valid=True, mayraise=False, wantopt=False, ref=0, zero=0.0, r1e10=1e10, rhobeg=1.0,
+    cfg = dict(maxfun=1, det=False, reg=False, hasproj=True, onesample=True, valid=True, mayraise=False, wantopt=False, ref=0, parallel=False, zero=0.0, r1e10=1e10, rhobeg=1.0,
                rhoenddoc=[1e-8] * 3, maxunsucc=10, resetrho=False, maxnpt=3)
     enc = recorder.encode_events(dict(cfg=cfg, ev=ev))
     byrule = sum(1 for e in ev if e["sweeps"] >= 1 and e["below"][e["sweeps"] - 1])
